@@ -22,11 +22,27 @@ DeclX == [t |-> "var", ty |-> "float", x |-> "x", e |-> F(1, 2)]
 P0 == [t |-> "arr", ty |-> "float", x |-> "p0", shape |-> <<>>, rows |-> << <<F(1, 2), F(3, 2)>> >>]
 IncBad == [abs |-> FALSE, dirs |-> <<>>, file |-> "bad.xbb"]
 IncOk == [abs |-> FALSE, dirs |-> <<>>, file |-> "sub.xbb"]
-Base == <<"w">>
+\* The included files may be edited between two loads.  The file system "as it is during epoch e" is the directory w<e> of the
+\* specification's (constant) file system; the harness keeps ONE directory and rewrites its files when the epoch changes.
+IncOuter == [abs |-> FALSE, dirs |-> <<>>, file |-> "outer.xbb"]
+IncInner == [abs |-> FALSE, dirs |-> <<>>, file |-> "inner.xbb"]
+BaseE(e) == <<"w" \o ToString(e)>>
+Base == BaseE(1)
 BadFile == Sc("bad", NoM, NoM, <<>>, <<DeclX, G(<<Var("nope")>>, <<>>, <<I(0)>>)>>)
 SubFile == Sc("sub", NoM, NoM, <<>>, <<DeclX, G(<<Var("x")>>, <<>>, <<I(1)>>)>>)
-FS12(f) == IF f = [dirs |-> Base, file |-> "bad.xbb"] THEN BadFile
-           ELSE IF f = [dirs |-> Base, file |-> "sub.xbb"] THEN SubFile ELSE NoFile
+OuterFile == Sc("outer", NoM, NoM, <<IncInner>>, <<Stmt("inner", FALSE, <<>>, <<>>, <<I(2)>>, "none"), G(<<I(5)>>, <<>>, <<I(1)>>)>>)
+InnerFile == Sc("inner", NoM, NoM, <<>>, <<G(<<F(1, 4)>>, <<>>, <<I(0)>>)>>)
+\* epoch 2: bad.xbb has been repaired, sub.xbb and the NESTED inner.xbb have other contents (outer.xbb is untouched)
+BadFile2 == Sc("bad", NoM, NoM, <<>>, <<DeclX, G(<<Var("x")>>, <<>>, <<I(2)>>)>>)
+SubFile2 == Sc("sub", NoM, NoM, <<>>, <<G(<<F(7, 2)>>, <<>>, <<I(1)>>), G(<<>>, <<>>, <<I(1)>>)>>)
+InnerFile2 == Sc("inner", NoM, NoM, <<>>, <<G(<<F(3, 4)>>, <<>>, <<I(0)>>), G(<<I(1)>>, <<>>, <<I(0)>>)>>)
+FilesE(e) == [bad |-> IF e = 1 THEN BadFile ELSE BadFile2, sub |-> IF e = 1 THEN SubFile ELSE SubFile2,
+              outer |-> OuterFile, inner |-> IF e = 1 THEN InnerFile ELSE InnerFile2]
+FS12(f) == IF \E e \in 1..2 : f.dirs = BaseE(e)
+           THEN LET e == CHOOSE x \in 1..2 : f.dirs = BaseE(x) IN
+                CASE f.file = "bad.xbb" -> FilesE(e).bad [] f.file = "sub.xbb" -> FilesE(e).sub
+                  [] f.file = "outer.xbb" -> FilesE(e).outer [] f.file = "inner.xbb" -> FilesE(e).inner [] OTHER -> NoFile
+           ELSE NoFile
 
 Scripts == <<
   Sc("ok", NoM, NoM, <<>>, <<DeclX, G(<<Var("x")>>, <<>>, <<I(0)>>)>>),                                          \* 1 valid
@@ -48,27 +64,29 @@ Scripts == <<
   Sc("idxfail", NoM, NoM, <<>>, <<[t |-> "arr", ty |-> "float", x |-> "A", shape |-> <<>>, rows |-> << <<F(1, 2), F(3, 2), F(5, 2)>> >>],
                                   G(<<[t |-> "idx", x |-> "A", e |-> I(1)]>>, <<>>, <<I(0)>>), G(<<>>, <<>>, <<F(1, 2)>>)>>),        \* 16 indexes A, then fails (bad mode)
   Sc("idxother", NoM, NoM, <<>>, <<[t |-> "arr", ty |-> "float", x |-> "A", shape |-> <<>>, rows |-> << <<F(11, 1), F(12, 1)>>, <<F(13, 1), F(14, 1)>> >>],
-                                   G(<<[t |-> "idx", x |-> "A", e |-> I(1)], [t |-> "idx", x |-> "A", e |-> I(3)]>>, <<>>, <<I(0)>>)>>)   \* 17 another A, indexed
+                                   G(<<[t |-> "idx", x |-> "A", e |-> I(1)], [t |-> "idx", x |-> "A", e |-> I(3)]>>, <<>>, <<I(0)>>)>>),   \* 17 another A, indexed
+  Sc("nested", NoM, NoM, <<IncOuter>>, <<Stmt("outer", FALSE, <<>>, <<>>, <<I(4), I(3)>>, "sq")>>)                \* 18 include of a file that includes another
 >>
+HasIncs(i) == "syntaxerr" \notin DOMAIN Scripts[i] /\ Len(Scripts[i].incs) > 0
 SyntaxOutcome == Raise("BSE", "syntax")
-Pristine(i) == IF "syntaxerr" \in DOMAIN Scripts[i] THEN SyntaxOutcome ELSE LoadFrom(Fresh, Scripts[i], Base).res
+Pristine(i, e) == IF "syntaxerr" \in DOMAIN Scripts[i] THEN SyntaxOutcome ELSE LoadFrom(Fresh, Scripts[i], BaseE(e)).res
 
-VARIABLES S, hist, cur
-vars == <<S, hist, cur>>
-Init == S = Fresh /\ hist = <<>> /\ cur = 0
-Start == cur = 0 /\ Len(hist) < K /\ \E i \in 1..Len(Scripts) :
-           /\ cur' = i /\ UNCHANGED hist
+VARIABLES S, hist, cur, ep          \* ep: the epoch of the file system (files are edited between loads, never during one)
+vars == <<S, hist, cur, ep>>
+Init == S = Fresh /\ hist = <<>> /\ cur = 0 /\ ep = 1
+Start == cur = 0 /\ Len(hist) < K /\ \E i \in 1..Len(Scripts) : \E e \in (IF HasIncs(i) THEN 1..2 ELSE {ep}) :
+           /\ cur' = i /\ ep' = e /\ UNCHANGED hist
            /\ S' = IF "syntaxerr" \in DOMAIN Scripts[i] THEN [S EXCEPT !.res = SyntaxOutcome]    \* the listener never runs
-                   ELSE Begin(S, Scripts[i], Base)
-Walk == cur # 0 /\ S.res = None /\ S' = Step(S) /\ UNCHANGED <<hist, cur>>
-Finish == cur # 0 /\ S.res # None /\ hist' = Append(hist, [sid |-> cur, out |-> S.res]) /\ cur' = 0
+                   ELSE Begin(S, Scripts[i], BaseE(e))
+Walk == cur # 0 /\ S.res = None /\ S' = Step(S) /\ UNCHANGED <<hist, cur, ep>>
+Finish == cur # 0 /\ S.res # None /\ hist' = Append(hist, [sid |-> cur, out |-> S.res, ep |-> ep]) /\ cur' = 0 /\ UNCHANGED ep
           /\ S' = [S EXCEPT !.res = None, !.st = <<>>]                                             \* the tables stay as the load left them
 Next == Start \/ Walk \/ Finish
 
-Independent == \A k \in 1..Len(hist) : SameOutcome(hist[k].out, Pristine(hist[k].sid)) /\ hist[k].out.k = Pristine(hist[k].sid).k
+Independent == \A k \in 1..Len(hist) : SameOutcome(hist[k].out, Pristine(hist[k].sid, hist[k].ep)) /\ hist[k].out.k = Pristine(hist[k].sid, hist[k].ep).k
 TablesCleanWhenIdle == (cur = 0 /\ ClearTablesAtLoadStart /\ Len(hist) > 0 /\ hist[Len(hist)].out.k = "ok") => S.V = <<>> /\ S.P = <<>>
 Emit == (cur = 0 /\ Len(hist) = K) => PrintT(<<"HIST", ToJson(hist)>>)
 EmitScripts == PrintT(<<"SCRIPTS", ToJson([i \in 1..Len(Scripts) |-> IF "syntaxerr" \in DOMAIN Scripts[i] THEN [syntaxerr |-> TRUE, body |-> <<>>] ELSE Scripts[i]])>>)
-EmitFiles == PrintT(<<"FILES", ToJson([bad |-> BadFile, sub |-> SubFile])>>)
+EmitFiles == PrintT(<<"FILES", ToJson([e1 |-> FilesE(1), e2 |-> FilesE(2)])>>)
 ASSUME EmitScripts /\ EmitFiles
 =============================================================================
